@@ -484,7 +484,7 @@ func genC20(t *rapid.T) c20Case {
 			}
 			c.Progs = append(c.Progs, prog)
 		}
-		c.Reps = pick(200, 1000)
+		c.Reps = pick(200, 400)
 		return c
 	}
 	for i := 0; i < g; i++ {
@@ -671,7 +671,7 @@ func TestC20(t *testing.T) {
 			ev.HarnessError("C20 must run in the -race build")
 			return
 		}
-		kC20.Run(t, ev, perShard(pick(300, 40000)))
+		kC20.Run(t, ev, perShard(pick(300, 12000)))
 		kC20GCS.Run(t, ev, perShard(pick(60, 6000)))
 		ev.requireClasses("C20:overlapping-calls-observed", "C20:linearizable", "C20:with-reload-or-unload", "C20:with-matchtx",
 			"C20:goroutines=32", "C20:gcs-concurrent-queries", "C20:cold-message-invariant-checked")
